@@ -153,6 +153,25 @@ func oracleReset(c *Ctx) error {
 			}
 		}
 	}
+	if mode != "soft" {
+		// "equal" as Goit itself reads it: with branch and staging area on the same snapshot, a later process finds
+		// every entry and sees nothing staged (an entry that is there but cannot be looked up would show as a change);
+		// after --hard the working tree equals it as well
+		r := c.Goit("status")
+		if r.Exit != 0 || r.Panic {
+			return fmt.Errorf("status after reset --%s failed: %s", mode, r)
+		}
+		rep, err := ParseStatus(r.Stdout)
+		if err != nil {
+			return fmt.Errorf("status after reset --%s: %v", mode, err)
+		}
+		if len(rep.Staged) > 0 {
+			return fmt.Errorf("after reset --%s to %s the branch and the staging area hold the same snapshot, yet status lists staged changes: %v", mode, target[:8], rep.Staged)
+		}
+		if mode == "hard" && len(rep.Unstaged) > 0 {
+			return fmt.Errorf("after reset --hard to %s status lists unstaged changes of tracked files: %v", target[:8], rep.Unstaged)
+		}
+	}
 	perturbed := len(sbx.DiffFiles(pre.Work, &sbx.Tree{Files: filesOf(pre), Dirs: pre.Work.Dirs}, nil)) > 0
 	stats.Label("reset:" + mode)
 	stats.LabelIf(n >= 1, "reset:n>=1")
@@ -189,7 +208,7 @@ var profReset = register(&Profile{
 })
 
 var resetWeights = Weights{"write-new": 14, "modify": 12, "remove-file": 8, "rmdir": 6, "recreate": 2, "add": 18, "rm": 3, "commit": 20,
-	"reset": 22, "reset-invalid": 5, "copydir": 3, "revert": 4, "switch": 4, "switch-c": 3, "branch": 2}
+	"reset": 22, "reset-invalid": 5, "write-temp-sibling": 5, "copydir": 3, "revert": 4, "switch": 4, "switch-c": 3, "branch": 2}
 
 // ---------------------------------------------------------------- C09
 
@@ -438,4 +457,4 @@ var profRestore = register(&Profile{
 })
 
 var restoreWeights = Weights{"write-new": 14, "modify": 14, "remove-file": 12, "rmdir": 8, "add": 18, "rm": 4, "commit": 10,
-	"restore": 20, "restore-staged": 18, "restore-invalid": 4, "reset": 3, "dir2file": 3, "file2dir": 3}
+	"restore": 20, "restore-staged": 18, "restore-invalid": 4, "reset": 3, "dir2file": 3, "file2dir": 3, "write-temp-sibling": 4}
